@@ -81,3 +81,7 @@ macro_rules! forward_shutdown {
         }
     };
 }
+
+/// `ntex_service::PipelineCall`: only stored (as `Option<..>` in a `Cell`) by the extracted io.rs
+/// state; never polled by a harness
+pub struct PipelineCall<S, R>(PhantomData<(S, R)>);
